@@ -274,7 +274,112 @@ def rule_r5(ctx, rid="C12.R5"):
                             "a flush failure handler does not set will_close: the producer waiting for the I/O thread's decision is never released", fe.loc(h.ast))
 
 
-RULES = [rule_r1, rule_r2, rule_r3, rule_r4, rule_r5]
+def rule_r6(ctx, rid="C12.R6"):
+    ctx.r.rule(rid, "drain liveness: whenever a producer can be paused (its wait predicate holds) the I/O thread's handle_write selects a flush routine - evaluated for all small (pending, mark, send_bytes), with and without a running task")
+    import itertools
+    from .common import formula_eval, formula_leaves
+    p = ctx.p
+    # P: the wait predicate of the producer (conjuncts on the pending counter)
+    Ps = []
+    for (f, g, n, c, loop) in _wait_loops(ctx):
+        if loop is None:
+            continue
+        lt = g.expand(loop.test, n)
+        conj = lt.values if isinstance(lt, ast.BoolOp) and isinstance(lt.op, ast.And) else [lt]
+        ps = [t for t in conj if any(_is_total(x) for x in ast.walk(t))]
+        if ps:
+            Ps.append((f, ps))
+    if not Ps:
+        ctx.r.violation(rid, "producer-never-waits", "no wait loop compares the pending output with the high watermark", "src/waitress/channel.py")
+        return
+    hw = p.func("channel.HTTPChannel.handle_write")
+    g = cfg_of(hw)
+    # the statement that runs the selected routine, and the definitions of the selected routine that reach it
+    runs = [(n, c) for n, c in find_calls(g, lambda c: dotted(c.func) == "self._flush_exception" and c.args and isinstance(c.args[0], ast.Name))]
+    if not runs:
+        raise AnalysisError("handle_write no longer runs a selected flush routine through _flush_exception")
+    rn, rc = runs[0]
+    var = rc.args[0].id
+    nones = [n for n in g.nodes if n.kind == "stmt" and isinstance(n.ast, ast.Assign) and any(isinstance(t, ast.Name) and t.id == var for t in n.ast.targets)
+             and isinstance(n.ast.value, ast.Constant) and n.ast.value.value is None]
+    sel = [n for n in g.nodes if n.kind == "stmt" and isinstance(n.ast, ast.Assign) and any(isinstance(t, ast.Name) and t.id == var for t in n.ast.targets)]
+    ctx.r.floor(rid, len(sel), 2, "assignments selecting the flush routine")
+    bad = {}
+    checked = 0
+    for nn in nones:
+        # is this `= None` the value that reaches the run?  (no other selection between it and the run)
+        others = [x for x in sel if x is not nn]
+        if g.path(nn, rn, avoid=others, follow_exc=False) is None:
+            continue
+        # the conditions under which this `= None` is the value that reaches the run: its own guards plus the
+        # outcomes of the tests passed on the way (every loop-free path that avoids the other selections)
+        base = guards_of(g, nn)
+        avoid_ids = {x.id for x in others}
+        paths = []
+
+        def dfs(node, conds, seen):
+            if len(paths) > 64:
+                return
+            if node is rn:
+                paths.append(list(conds))
+                return
+            for (sx, lab) in node.succ:
+                if lab == "exc" or sx.id in avoid_ids or sx.id in seen:
+                    continue
+                extra = [(sx.ast, sx.polarity)] if sx.kind == "branch" else []
+                dfs(sx, conds + extra, seen | {sx.id})
+        dfs(nn, [], {nn.id})
+        if not paths:
+            continue
+        leaves = []
+        for (t, pol) in base + [c for pth in paths for c in pth]:
+            for lf in formula_leaves(t):
+                if lf not in leaves:
+                    leaves.append(lf)
+        for (pf, ps) in Ps:
+            for x in ps:
+                for lf in formula_leaves(x):
+                    if lf not in leaves:
+                        leaves.append(lf)
+        dom = {}
+        for lf in leaves:
+            if lf == "self.total_outbufs_len":
+                dom[lf] = (0, 1, 2, 3)
+            elif lf.endswith("outbuf_high_watermark") or lf.endswith("send_bytes"):
+                dom[lf] = (0, 1, 2, 3)
+            elif lf == "self.requests":
+                dom[lf] = ((), ("task",))
+            elif lf == "len(self.requests)":
+                dom[lf] = (0, 1)
+            else:
+                dom[lf] = (False, True)
+        for vals in itertools.product(*[dom[lf] for lf in leaves]):
+            env = dict(zip(leaves, vals))
+            try:
+                if not all(bool(formula_eval(t, env)) == pol for (t, pol) in base):
+                    continue
+                if not any(all(bool(formula_eval(t, env)) == pol for (t, pol) in pth) for pth in paths):
+                    continue
+                paused = any(all(bool(formula_eval(x, env)) for x in ps) for (pf, ps) in Ps)
+            except (KeyError, TypeError) as ex:
+                raise AnalysisError("cannot evaluate the flush selection: %s" % ex)
+            checked += 1
+            if paused:
+                sb = next((env[k] for k in env if k.endswith("send_bytes")), None)
+                mk = next((env[k] for k in env if k.endswith("outbuf_high_watermark")), None)
+                cls = "send_bytes-above-mark" if (sb is not None and mk is not None and sb > mk + 1) else "within-mark"
+                bad.setdefault(cls, env)
+    if not nones:
+        ctx.r.ok(rid, "handle_write always selects a flush routine", hw.loc())
+    for cls, env in sorted(bad.items()):
+        ctx.r.violation(rid, key_of(hw, None, "drain-starved::" + cls),
+                        "handle_write selects no flush routine although a producer can be paused at the mark (%s): the I/O thread never drains, the producer waits forever while the client is writable"
+                        % ", ".join("%s=%r" % (k.replace("self.", "").replace("adj.", ""), v) for k, v in env.items()), hw.loc(nones[0].ast) if nones else hw.loc())
+    if nones and not bad:
+        ctx.r.ok(rid, "no flush is skipped while the producer's wait predicate holds (%d settings evaluated)" % checked, hw.loc(nones[0].ast))
+
+
+RULES = [rule_r1, rule_r2, rule_r3, rule_r4, rule_r5, rule_r6]
 
 from ..selftest import M, T, V  # noqa: E402
 
